@@ -6,10 +6,11 @@ Recover.rebuild_sections / load_section_dict / rebuild_tables / recover_rootdict
 `lldxf/validator.py`: entity_structure_validator; `lldxf/tags.py`: group_tags; `lldxf/encoding.py`:
 has_dxf_unicode / decode_dxf_unicode).  Core Lean only.  Bytes are `List Nat`, strings are lists of code points.
 
-Every Python operation of that path which can raise is a branch returning `Except PyErr`.  Four of them raise
-something else than DXFStructureError on the unchanged tree; `Cfg` selects, per defect, the current behaviour
-(`false`) or the behaviour after the proposed patch /verif/.scratch/fixes/C07-<n>.diff (`true`), so that the same
-model is tied to the unchanged tree by correspondence and carries the totality theorem for the patched one.
+Every Python operation of that path which can raise is a branch returning `Except PyErr`.  Four of them raised
+something else than DXFStructureError before the fix commits 8e9a904c3, ebbd13340, c6ed255c5, 3fc8e70de; `Cfg`
+selects, per defect, the behaviour before (`false`) or after (`true`) the fix.  `Cfg.tree` is the configuration
+that `regenerate` probes from the current source: the theorems about the current code are stated for it, the
+correspondence compares the model in it, and the pre-fix behaviour survives as counterexample theorems.
 
 Python generators are lazy: an exception of `bytes_loader` is raised when the consumer reaches that position.
 `RStream` = the tags delivered before + the terminal exception; the consumers below take it into account
@@ -41,6 +42,8 @@ structure Cfg where
 
 def Cfg.fixed : Cfg := ⟨true, true, true, true⟩
 def Cfg.unfixed : Cfg := ⟨false, false, false, false⟩
+/-- the configuration of the tree under test, probed from the current source by `regenerate` (Gen/RecoverTables) -/
+def Cfg.tree : Cfg := ⟨treeFixSection, treeFixErrMsg, treeFixDetect, treeFixUnicode⟩
 
 /-! ### string constants (code points) -/
 def sSection : Str := [83, 69, 67, 84, 73, 79, 78]
